@@ -229,6 +229,11 @@ def gen_cases(ctx: Ctx):
         c["scheds"] = [PROC]
         c["outputs"] = (j % 2 == 0)
         cases.append(c)
+    for j in range(ctx.budget(1, 6)):
+        c = gen_encs(r, modes3[(j + rot) % 3], r.choice([q for q in pats if len(q) == 3 and len(set(q)) == 2]))
+        c["scheds"] = [PROC]
+        c["outputs"] = (j % 2 == 1)
+        cases.append(c)
     # seeded-stochastic pipelines: forced witness schedule and natural interleavings
     for j in range(ctx.budget(3, 8)):
         cases.append(dict(kind="draw", mode="product", params=[dict(values=[1, 2])], pipeline_seed=r.randrange(1, 10 ** 6),
@@ -426,6 +431,10 @@ def correspondence(ctx: Ctx, cases, tag="c"):
     return subs, mism, viol
 
 
+def ncell_of(p):
+    return len(p[1]) if p else 0
+
+
 def account(ctx: Ctx, subs):
     seen = set()
     for desc, s, p, files, raw in subs:
@@ -436,6 +445,24 @@ def account(ctx: Ctx, subs):
         if c["kind"] == "encs":
             ctx.dist("short-name pattern", f"{len(c['pattern'])}:{c['pattern']}")
             ctx.dist("collision/mode", f"{'collide' if len(set(c['pattern'])) < len(c['pattern']) else 'distinct'}/{c['mode']}")
+        if c["kind"] in ("enc", "encs"):
+            ps = c["params"]
+            if c["mode"] == "custom":
+                ctx.dist("custom widths", "/".join("s" if q["w"] is None else str(q["w"]) for q in ps))
+                ctx.dist("one-element list declared", any(q["w"] == 1 for q in ps))
+            else:
+                ctx.dist("vector-valued parameters", sum(1 for q in ps if q["values"] and isinstance(q["values"][0], list)))
+                ctx.dist("a list repeats a value", any(len({json.dumps(v) for v in q["values"]}) < len(q["values"]) for q in ps))
+                ctx.dist("a list is unsorted", any(q["values"] != sorted(q["values"]) for q in ps))
+            ctx.dist("cells in the parallel result", min(ncell_of(p), 20))
+        if c["kind"] == "encs":
+            pat = c["pattern"]
+            # a group with >= 2 members one of which is listed after a parameter of another group
+            shaped = any(pat.count(g) >= 2 and any(pat[i] != g for i in range(max(k for k, x in enumerate(pat) if x == g)))
+                         for g in set(pat))
+            ctx.dist("colliding name listed after another parameter", shaped)
+            keys = [f"m{j}.{a}" for j, a in c["layout"]]
+            ctx.dist("keys listed in alphabetical order", keys == sorted(keys))
         if c["kind"] in ("enc", "encs", "draw"):
             ctx.dist("mode/nparams", f"{c['mode']}/{len(c['params'])}")
             ctx.dist("outputs", bool(files is not None))
